@@ -9,6 +9,7 @@ import KmipModel.Props.C04
 import KmipModel.Props.C07
 import KmipModel.Props.C08
 import KmipModel.Props.C11
+import KmipModel.Props.C13
 import KmipModel.Props.C14
 import KmipModel.Props.C15
 import KmipModel.Props.C16
